@@ -52,6 +52,10 @@ def cmd_check(argv):
             st = runner.run(prop, seed)
             if st.get('failures'):
                 raise AnalysisError('checker self-test failed: ' + '; '.join(st['failures'][:5]))
+            cp = runner.corpus(prop)
+            st['corpus'] = {k: v for k, v in cp.items() if k != 'failures'}
+            if cp.get('failures'):
+                raise AnalysisError('corpus check failed: ' + '; '.join(cp['failures'][:5]))
         code, _ = report.finish(chk, time.time() - t0, seed=seed, selftest=st)
         return code
     except AnalysisError as e:
@@ -117,6 +121,10 @@ def cmd_selftest(argv):
         st = runner.run(p, 0, verbose=True)
         print(p, {k: v for k, v in st.items() if k != 'results'})
         bad += len(st.get('failures', []))
+        if os.environ.get('AVS_CORPUS'):
+            cp = runner.corpus(p, verbose=True)
+            print(p, 'corpus', cp)
+            bad += len(cp.get('failures', []))
     return 0 if not bad else 2
 
 
